@@ -567,6 +567,60 @@ func genPurity(out string, root, helpers *pkgFiles) {
 	}
 	fmt.Fprintf(&sb, "/-- renderNodesWithContext passes only deep clones of its (possibly cached) nodes on to processing and evaluation -/\ndef evaluatesDeepClone : Bool := %s\n", b2l(cloned))
 	rep.Facts["evaluatesDeepClone"] = b2l(cloned)
+
+	// the render methods of a template value only READ the template's own variable stack (EnvMap, Lookup, Get…) or hand a Copy() of it to
+	// the evaluation: the stack itself — which v-for, includes, slots and <template :x> push to and assign into — never reaches a render
+	readOnly := true
+	sites := 0
+	roMethods := map[string]bool{"Copy": true, "EnvMap": true, "Lookup": true, "Resolve": true, "GetString": true, "GetInt": true, "GetSlice": true, "GetMap": true, "Len": true}
+	for _, f := range root.files {
+		for _, d := range f.Decls {
+			fd, ok := d.(*ast.FuncDecl)
+			if !ok || fd.Recv == nil || len(fd.Recv.List) != 1 || len(fd.Recv.List[0].Names) != 1 || fd.Body == nil {
+				continue
+			}
+			rt := fd.Recv.List[0].Type
+			if st, ok := rt.(*ast.StarExpr); ok {
+				rt = st.X
+			}
+			if exprString(rt) != "template" {
+				continue
+			}
+			nm := fd.Name.Name
+			if !(strings.HasPrefix(nm, "Render") || strings.HasPrefix(nm, "render") || nm == "layout") {
+				continue
+			}
+			recv := fd.Recv.List[0].Names[0].Name
+			var stack []ast.Node
+			ast.Inspect(fd.Body, func(n ast.Node) bool {
+				if n == nil {
+					stack = stack[:len(stack)-1]
+					return true
+				}
+				if se, ok := n.(*ast.SelectorExpr); ok && se.Sel.Name == "stack" && exprString(se.X) == recv {
+					sites++
+					ok := false
+					if len(stack) >= 2 {
+						if ps, isSel := stack[len(stack)-1].(*ast.SelectorExpr); isSel && ps.X == se && roMethods[ps.Sel.Name] {
+							if ce, isCall := stack[len(stack)-2].(*ast.CallExpr); isCall && ce.Fun == ps {
+								ok = true
+							}
+						}
+					}
+					if !ok {
+						readOnly = false
+					}
+				}
+				stack = append(stack, n)
+				return true
+			})
+		}
+	}
+	if sites == 0 {
+		readOnly = false
+	}
+	fmt.Fprintf(&sb, "/-- the render methods of `template` touch the template's own stack only through read-only calls or `Copy()` (%d sites) -/\ndef renderReadsTemplateStackOnly : Bool := %s\n", sites, b2l(readOnly))
+	rep.Facts["renderReadsTemplateStackOnly"] = b2l(readOnly)
 }
 
 // ---------------------------------------------------------------------------------------------------------------- C09
